@@ -310,7 +310,20 @@ def numeric(ctx):
             for nm_, got, want in (('u.inner(q)', r[0], float(u @ gq)), ('q.inner(u)', r[1], float(u @ gq)), ('u.inner(u)', r[2], float(u @ u))):
                 if abs(float(got) - want) > 1e-9 * max(1.0, abs(want)):
                     ctx.fail(cid, 'Quaternion.inner', 'mismatch', dict(P, law='inner', form=nm_), '%s = %r, the Euclidean dot product is %r' % (nm_, got, want))
-        for n_ in (-8, -3, -1, 0, 1, 2, 3, 8):
+        # sums and differences of two UnitQuaternion objects are plain element-wise sums (whichever hemisphere the operands are in), and the
+        # product distributes over them
+        for vn, v in (('-u', -u), ('other-hemisphere', -np.r_[math.cos(0.7), math.sin(0.7) * alph.unit((1, 2, 3))]), ('same-hemisphere', np.r_[math.cos(0.2), math.sin(0.2) * alph.unit((3, 1, 2))])):
+            mkv = lambda: UQ(v.copy(), norm=False, check=False)
+            ok, r = call(lambda: ((mku() + mkv()).vec, (mku() - mkv()).vec, (sm.Quaternion(gq.copy()) * (mku() + mkv())).vec, ((mku() + mkv()) * sm.Quaternion(gq.copy())).vec))
+            Pd = dict(P, law='distrib', other=vn)
+            if not ok:
+                ctx.fail(cid, 'Quaternion.add', 'raises:' + type(r).__name__, Pd, '%r' % (r,))
+                continue
+            for nm_, got, want in (('u + v', r[0], u + v), ('u - v', r[1], u - v), ('p * (u + v)', r[2], ref.qmul(gq, u) + ref.qmul(gq, v)), ('(u + v) * p', r[3], ref.qmul(u, gq) + ref.qmul(v, gq))):
+                if np.abs(np.asarray(got, dtype=float) - want).max() > 1e-9 * 10:
+                    ctx.fail(cid, 'Quaternion.add', 'mismatch', dict(Pd, form=nm_), '%s with UnitQuaternion operands (%s) is %r, element-wise it is %r' % (nm_, vn, np.asarray(got).tolist(), want.tolist()))
+                    break
+        for n_ in range(-8, 9):
             rp = u.copy() if n_ != 0 else A(1, 0, 0, 0)
             base_ = u if n_ >= 0 else ref.qconj(u)
             rp = A(1, 0, 0, 0)
@@ -321,6 +334,28 @@ def numeric(ctx):
                 ctx.fail(cid, 'Quaternion.pow', 'raises:' + type(r).__name__, dict(P, law='pow', n=n_), '%r' % (r,))
             elif np.abs(np.asarray(r, dtype=float) - rp).max() > 1e-9:
                 ctx.fail(cid, 'Quaternion.pow', 'mismatch', dict(P, law='pow', n=n_), 'u**%d differs from the repeated product by %.3g' % (n_, np.abs(np.asarray(r, dtype=float) - rp).max()))
+    # the powers whose raw product drifts farthest from unit norm before it is normalised (|n| = 4..6), on the complete grid of unit quaternions
+    # with integer direction components 0..3 (a validation band that is a few eps too narrow refuses a fraction of a percent of them)
+    for comp in itertools.product(range(4), repeat=4):
+        if not any(comp) or (tier == 'quick' and (comp[0] + 2 * comp[1] + 3 * comp[2] + 5 * comp[3]) % 2):
+            continue
+        u = np.array(comp, dtype=float)
+        u = u / math.sqrt(float(u @ u))
+        cid = 'C12/unitrecv/grid/%d%d%d%d' % comp
+        if not ctx.want(cid):
+            continue
+        ctx.case(cid, key=cid)
+        for n_ in (-6, -5, -4, 4, 5, 6):
+            base_ = u if n_ >= 0 else ref.qconj(u)
+            rp = A(1, 0, 0, 0)
+            for _ in range(abs(n_)):
+                rp = ref.qmul(rp, base_)
+            ok, r = call(lambda: (UQ(list(comp)) ** n_).vec)
+            P = dict(receiver='UnitQuaternion', law='pow', n=n_, grid=1)
+            if not ok:
+                ctx.fail(cid, 'Quaternion.pow', 'raises:' + type(r).__name__, P, 'UnitQuaternion(%r) ** %d raised %r' % (list(comp), n_, r))
+            elif min(np.abs(np.asarray(r, dtype=float) - rp).max(), np.abs(np.asarray(r, dtype=float) + rp).max()) > 1e-9:
+                ctx.fail(cid, 'Quaternion.pow', 'mismatch', P, 'UnitQuaternion(%r) ** %d differs from the repeated product' % (list(comp), n_))
     for tn, th in [(n, t) for n, t in alph.theta_alphabet(tier, seed) if 1e-7 < t < math.pi - 1e-7]:
         for xn, ax in alph.axes(tier, seed):
             q = np.r_[0.0, th * ax]
